@@ -15,12 +15,12 @@ from .. import containers as C
 
 T, F = z3.BoolVal(True), z3.BoolVal(False)
 
-SCHEMA = ('entity Group; entity User in [Group] { manager: User, name: String, level: Long }; entity Photo in [Group] { owner: User, public: Bool }; '
+SCHEMA = ('entity Group; entity User in [Group] { manager: User, name: String, level: Long, addr: ipaddr }; entity Photo in [Group] { owner: User, public: Bool }; '
           'action view appliesTo { principal: User, resource: Photo, context: { flag: Bool } };')
 
 
 def user(i, manager, parents=(), level=1):
-    return {'uid': {'type': 'User', 'id': i}, 'attrs': {'name': i, 'level': level, 'manager': {'__entity': {'type': 'User', 'id': manager}}}, 'parents': [{'type': 'Group', 'id': g} for g in parents]}
+    return {'uid': {'type': 'User', 'id': i}, 'attrs': {'name': i, 'level': level, 'manager': {'__entity': {'type': 'User', 'id': manager}}, 'addr': {'__extn': {'fn': 'ip', 'arg': '10.1.2.3'}}}, 'parents': [{'type': 'Group', 'id': g} for g in parents]}
 
 
 STORE = [user('a', 'b', ['g']), user('b', 'c'), user('c', 'c', ['h'], level=7), {'uid': {'type': 'Group', 'id': 'g'}, 'attrs': {}, 'parents': []}, {'uid': {'type': 'Group', 'id': 'h'}, 'attrs': {}, 'parents': []},
@@ -46,9 +46,14 @@ BATTERY = [  # (label, policies, request delta)
     ('two policies needing different entities', 'permit(principal, action, resource) when { principal.manager.level == 1 }; forbid(principal, action, resource) when { resource.owner.manager.manager.level == 0 };', {}),
     ('a has-test on a failing chain next to a false conjunct, inside unless', P_ALL + ' forbid(principal, action, resource) unless { resource.owner.manager has name && context.flag };', {'resource': 'Photo::"q"'}),
     ('a has-test on a failing chain next to a true disjunct', 'permit(principal, action, resource) when { resource.owner.manager has name || !context.flag };', {'resource': 'Photo::"q"'}),
+    ('entity data needed only inside the arguments of an extension call', 'permit(principal, action, resource) when { principal.addr.isInRange(ip("10.0.0.0/8")) };', {}),
+    ('entity data two hops away inside an extension call, in a forbid', P_ALL + ' forbid(principal, action, resource) when { resource.owner.manager.addr.isLoopback() };', {}),
+    ('an unconditional permit next to a policy that needs two rounds', P_ALL + ' permit(principal, action, resource) when { principal.manager.name == "zzz" };', {}),
+    ('a forbid decided in round 1, a permit decided in round 2', 'forbid(principal, action, resource) when { principal.name == "a" }; permit(principal, action, resource) when { principal.manager.name == "b" };', {}),
+    ('a permit decided in round 1, a forbid refuted in round 2', 'permit(principal, action, resource) when { principal.name == "a" }; forbid(principal, action, resource) when { principal.manager.name == "zzz" };', {}),
     ('resource in a group reached through the principal', 'permit(principal, action, resource) when { resource in Group::"g" && principal.manager.manager.manager.name == "c" };', {}),
 ]
-BUDGETS = [0, 1, 2, 3, 4, 5, 6, 9]
+BUDGETS = [0, 1, 2, 3, 4, 5, 6, 9, 12]
 DISTINCT_IDS = 9       # entities of the store (7) + ghost + nobody: a budget above this always decides
 
 
